@@ -34,6 +34,9 @@ def concretise(progs, pid, tier, seed, mult, bset=REAL_B, allk=False, kinds=None
                         k = rnd.choice([1, 2, 3])
                         q["chunks"] = [max(1, n // k)] * k
                         q["eofw"] = rnd.random() < 0.5
+                        # every fourth copy reads from a source that fails instead of ending (not in fault enumeration runs)
+                        if not allk and n > 0 and rnd.random() < 0.25:
+                            q["via"] = "rfe"
                 ops.append(q)
             ops = fuse_json_close(ops)
             pms = [dict(type=x["type"], n=sz(x["size"], min(B, 4096)), mutate=(rnd.random() < 0.5)) for x in p.get("pms", [])]
